@@ -43,6 +43,47 @@ def float_arith(op, a, b):
     return ('f', r[0], r[1])
 
 
+CTOR_CONSTS = {}        # member declaration -> {class: constant}: see ensure_ctor_consts
+_CC_DONE = []
+
+
+def ensure_ctor_consts(prog):
+    """Const-qualified integer members of base classes that the default constructor of a concrete class fixes to a constant
+    (for example digest and block length handed to the base constructor): found by running each default constructor."""
+    if _CC_DONE and _CC_DONE[0] is prog:
+        return
+    _CC_DONE[:] = [prog]
+    CTOR_CONSTS.clear()
+    cands = {}
+    for r in prog.records.values():
+        for f in r['fields']:
+            t = prog.type(f['t']) or {}
+            if t.get('k') == 'int' and (t.get('const') or str(t.get('s', '')).startswith('const ')):
+                cands[f['d'][2:]] = r['q']
+    if not cands:
+        return
+    OBJ = ('ext', 'ctorprobe')
+    for r in prog.records.values():
+        bases = set(prog.all_bases(r['q'])) if hasattr(prog, 'all_bases') else set()
+        mine = {fd for fd, owner in cands.items() if owner in bases}
+        if not mine:
+            continue
+        ctors = [f for f in prog.functions.values() if f.get('ctor') and f.get('rec') == r['q'] and not f['params'] and f.get('body') is not None]
+        if len(ctors) != 1:
+            continue
+        try:
+            I = Interp(prog)
+            res = I.run(ctors[0], State(), this=P(OBJ, ()))
+        except Exception:
+            continue
+        for fd in mine:
+            vals = {s_.mem.get((OBJ, (fd,))) for s_, _ in res}
+            if len(vals) == 1:
+                v = next(iter(vals))
+                if v is not None and v[0] == 'c':
+                    CTOR_CONSTS.setdefault(fd, {})[r['q']] = v
+
+
 class Budget(AnalysisBroken):
     pass
 
@@ -126,6 +167,7 @@ def has_abs(path):
 
 class Interp:
     def __init__(self, prog, listeners=(), models=None, inline_depth=10, opaque=(), sym_ranges=None):
+        ensure_ctor_consts(prog)
         self.prog = prog
         self.listeners = list(listeners)
         self.models = dict(models or {})
@@ -251,6 +293,15 @@ class Interp:
         v = st.mem.get(key)
         if v is not None and concrete_path(path):
             return v
+        if v is None and path and isinstance(path[-1], str):
+            cc = CTOR_CONSTS.get(path[-1])
+            if cc:
+                # a const member that every constructor of the (dynamic) class sets to the same constant: an object the
+                # analysis starts from without running its constructor has that value
+                recs = [getattr(self, 'assume_class', None)] + [fr_.fn.get('rec') for fr_ in self.frames]
+                for rq in recs:
+                    if rq in cc:
+                        return cc[rq]
         # constant global tables come straight from the facts
         if isinstance(obj, str) and obj.startswith('G:'):
             if self.const_override and not path:
@@ -956,7 +1007,12 @@ class Interp:
         for sy, _ in v[2]:
             up = dict(s.comps.get(('trunc', sy)) or ()) if str(sy).startswith('$tr') else None
             roots |= set(up['syms']) if up else {str(sy)}
-        info = {'where': nloc(n), 'fn': self.frames[-1].fn['q'] if self.frames else '?', 'expr': show(v), 'range': vr, 'syms': tuple(sorted(roots)),
+        expr = show(v)
+        for sy, _ in v[2]:
+            up = dict(s.comps.get(('trunc', sy)) or ()) if str(sy).startswith('$tr') else None
+            if up:
+                expr = expr.replace(str(sy), '<%s as %d-bit %s>' % (up['expr'], up['bits'], 'signed' if up['signed'] else 'unsigned'))
+        info = {'where': nloc(n), 'fn': self.frames[-1].fn['q'] if self.frames else '?', 'expr': expr, 'range': vr, 'syms': tuple(sorted(roots)),
                 'bits': t['bits'], 'signed': bool(t.get('sg')), 'narrowing': narrowing, 'arith': arith}
         s.sym[nm] = tr_
         s.comps[('trunc', nm)] = tuple(sorted(info.items()))
@@ -1222,7 +1278,9 @@ class Interp:
         if getattr(self, 'join_conditionals', False) and (self.T(n) or {}).get('k') in ('int', 'bool', 'enum'):
             # effect analyses that do not care which arm is taken: one state, the join of the two integer values
             # (both arms are evaluated, so listeners see the reads of both)
+            f0 = self.stats['forks']
             outs = self.cond(n['cond'], st.copy(), fr)
+            self.stats['forks'] = f0        # a probe, not a decision of the path
             if len(outs) == 2 and outs[0][1] != outs[1][1]:
                 ra = self.ev(n['then'], st, fr)
                 if len(ra) == 1:
@@ -1312,6 +1370,9 @@ class Interp:
             for s, (b, i) in self.ev_list([n['base'], n['idx']], st, fr):
                 if is_int(b) and is_ptr(i):
                     b, i = i, b
+                hook = getattr(self, 'index_hook', None)
+                if hook is not None:
+                    i = hook(self, s, fr, b, i, n)
                 p = self.ptr_add(s, b, i, n)
                 res.append((s, self.deref(s, p, n)))
             return res
@@ -2445,7 +2506,12 @@ class Interp:
                     v = P(('ext', 'param:' + p['n']), ())
                 else:
                     v = TOP
-            st.mem[l] = v
+            pt = self.T(p['t'])
+            if pt and pt.get('k') == 'rec' and v[0] == 'p':
+                # a class object passed by value: the parameter is a copy of the object the caller names
+                self.copy_object(st, (v[1], v[2]), l)
+            else:
+                st.mem[l] = v
         self.emit('enter', st, fn=fdef, fr=fr, node=None, this=this, args=args or [])
         states = [st]
         self.frames.append(fr)
